@@ -197,6 +197,7 @@ def r_instances(tier):
         for fam in ('simple', 'dist'):
             out.append(('width', 'side', SIDE, dict(fam=fam, T=3, ne=False, sym_maxdist=False, sym_init=False, sym_minprob=False), (1, 4)))
             out.append(('width', 'oneway3', NAMED['oneway3'], dict(fam=fam, T=3, ne=False, sym_maxdist=False, sym_init=False, sym_minprob=False), (1, 2)))
+        out.append(('width', 'A>BC;B>A;C>A', {"A": ["B", "C"], "B": ["A"], "C": ["A"]}, dict(fam='simple_n', T=2, ne=True, sym_maxdist=False, sym_init=False, sym_minprob=False), (1, 2)))
         out.append(('width', 'tri', NAMED['tri'], dict(fam='simple', T=2, ne=False, sym_maxdist=False, sym_init=False, sym_minprob=False), (1, 2, 3)))
     else:
         for name, g in library(3, named=('fork',)):
@@ -273,6 +274,20 @@ def run_width(inst):
     return gabs.run(ginst, width_claims, width_witness)
 
 
+def known_width_finding(v, findings):
+    """F-C07-node-states-nonemitting-unpruned-suboptimal: node-and-edge states with non-emitting states, and the violated claim
+    says that a pruned / widened run is more probable than (or differs in score from) the unpruned run."""
+    cfg = v.get('cfg') or {}
+    if v.get('kind') != 'gabs' or cfg.get('fam') != 'simple_n' or not cfg.get('ne'):
+        return None
+    if not any(x in v.get('claim', '') for x in ('not_more_probable_than_unpruned', 'same_score_when_W_covers_all')):
+        return None
+    for f in findings:
+        if f.get('predicate') == 'node_states_nonemitting_pruned_beats_unpruned':
+            return f"{f['id']}: {f['what'][:200]}"
+    return None
+
+
 def run_instance(inst):
     return run_prune(inst) if inst[0] == 'prune' else run_width(inst)
 
@@ -295,12 +310,20 @@ def main(tier):
                       per_instance_budget_s=budget)
     rep.outside = ["rounding", "columns wider than the bound", "graphs/traces beyond the bound"]
     rep.assumptions = ["AbsMap contract", "halfnorm formula shim"]
+    from symx.common import load_findings
+    findings, known = load_findings(PID), set()
     tags = {}
     for r in sorted(res, key=lambda r: r['name']):
         rep.add_instance(r)
         for t, n in r.get('tags', {}).items():
             tags[t] = tags.get(t, 0) + n
         for v in r.get('violations', []):
+            kf = known_width_finding(v, findings)
+            if kf:
+                if kf not in known:
+                    known.add(kf)
+                    rep.known_hits.append(f"{kf} (e.g. {v['desc'][:260]})")
+                continue
             fn = write_replay(PID, dict(property=PID, instance=r['name'], **{k: v[k] for k in v if k != 'desc'}, observed=v['desc']))
             rep.violations.append(dict(replay=fn, msg=f"{r['name']} claim={v['claim']}: {v['desc']}"))
         for c in r.get('candidates', []):
